@@ -117,7 +117,14 @@ let run_case op toks =
                   let base = [ "ok"; zs (lay_required l t e); string_of_int r ] @ st
                              @ [ string_of_int (List.length offs) ] @ zl offs in
                   let tail = if how = 0 then []
-                    else [ "sz"; zs (mds_size t e); b2s (mds_empty t e) ] @ zl (extents_list t e) @ st in
+                    else begin
+                      (* the elements read through the view: buffer element k holds 1000 + k *)
+                      let n = (match offs with [] -> 0 | _ -> List.length offs) + 1 in
+                      let buf = List.init n (fun k -> zi (1000 + k)) in
+                      let els = List.map (fun idx -> match mds_get buf l t e idx with Some a -> zs a | None -> "oob") idxs in
+                      [ "el"; string_of_int (List.length els) ] @ els
+                      @ [ "sz"; zs (mds_size t e); b2s (mds_empty t e) ] @ zl (extents_list t e) @ st
+                    end in
                   join (base @ tail) in
           let sst = List.map (fun k -> spec_stride l xs k) (seq r) in
           let dom = all_repr t xs && repr t (product xs) && all_repr t sst in
@@ -128,7 +135,8 @@ let run_case op toks =
               let base = [ "ok"; zs (product xs); string_of_int r ] @ zl sst
                          @ [ string_of_int (List.length so) ] @ zl so in
               let tail = if how = 0 then []
-                else [ "sz"; zs (product xs); b2s (z_eq (product xs) Z0) ] @ zl xs @ zl sst in
+                else [ "el"; string_of_int (List.length so) ] @ List.map (fun o -> zs (Z.add (zi 1000) o)) so
+                     @ [ "sz"; zs (product xs); b2s (z_eq (product xs) Z0) ] @ zl xs @ zl sst in
               join (base @ tail) in
           (m, s)
       | "map_at" ->
@@ -179,16 +187,32 @@ let run_case op toks =
                 | None -> "ub"
                 | Some offs ->
                     if List.exists (fun s -> match s with Ok _ -> false | _ -> true) strides then "contract"
-                    else join ([ "ok"; string_of_int r ] @ zl m.st_strides
+                    else
+                      let small = dom && z_le (stride_required xs sv) (zi 100000) && repr t (product xs) in
+                      let tail =
+                        if not small then []
+                        else begin
+                          let n = int_of_z (stride_required xs sv) + 1 in
+                          let buf = List.init n (fun k -> zi (1000 + k)) in
+                          let els = List.map (fun o -> if is_neg o then "oob" else
+                                                match List.nth_opt buf (int_of_z o) with Some a -> zs a | None -> "oob") offs in
+                          [ "el"; string_of_int (List.length els) ] @ els
+                          @ [ zs (mds_size t m.st_ext); zs (List.nth m.st_strides (r - 1)) ]
+                        end in
+                      join ([ "ok"; string_of_int r ] @ zl m.st_strides
                                @ List.map (fun s -> match s with Ok v -> zs v | _ -> "?") strides
                                @ zl (extents_list t m.st_ext)
-                               @ [ string_of_int (List.length offs) ] @ zl offs) in
+                               @ [ string_of_int (List.length offs) ] @ zl offs @ tail) in
               let sl =
                 if not dom then "na"
                 else
                   let so = List.map (fun idx -> dot idx sv) idxs in
+                  let tail = if z_le (stride_required xs sv) (zi 100000) && repr t (product xs)
+                    then [ "el"; string_of_int (List.length so) ] @ List.map (fun o -> zs (Z.add (zi 1000) o)) so
+                         @ [ zs (product xs); zs (List.nth sv (r - 1)) ]
+                    else [] in
                   join ([ "ok"; string_of_int r ] @ zl sv @ zl sv @ zl xs
-                        @ [ string_of_int (List.length so) ] @ zl so) in
+                        @ [ string_of_int (List.length so) ] @ zl so @ tail) in
               (ml, sl)
             end
           end
@@ -224,6 +248,20 @@ let run_case op toks =
       let v = next_wlist t1 toks in
       let src = ext_from_pack t1 p1 v in
       let xs = extents_dyn p1 v in
+      if op = "ext_eq" then begin
+        let w = next_wlist t2 toks in
+        let dst = ext_from_pack t2 p2 w in
+        let ys = extents_dyn p2 w in
+        let other1 = ext_default [ Some (zi 1); Some (zi 2); Some (zi 3); Some (zi 4); Some (zi 5) ] in
+        let other2 = ext_default [ None; None; None; None; None ] in
+        let ml = join ([ "ok" ] @ List.map b2s
+                         [ ext_eqb t2 dst t1 src; ext_eqb t1 src t2 dst; ext_eqb t1 src t1 src; ext_eqb t2 dst t2 dst;
+                           ext_eqb t2 dst t1 src; ext_eqb t1 src t2 dst;
+                           ext_eqb t2 dst t1 other1; ext_eqb t2 other2 t1 src ]) in
+        let eq = List.length xs = List.length ys && List.for_all2 z_eq xs ys in
+        let dom = all_repr t1 xs && all_repr t2 ys in
+        (ml, if dom then join ([ "ok" ] @ List.map b2s [ eq; eq; true; true; eq; eq; false; false ]) else "na")
+      end else
       let ok = all_repr t1 xs && all_repr t2 xs
                && List.for_all2 (fun po x -> match po with Some n -> z_eq n x | None -> true) p2 xs in
       let e2 = ext_convert t2 p2 t1 src in
@@ -252,14 +290,21 @@ let run_case op toks =
       let te = tr_extents t ne in
       let offs = opt_all (List.map (fun idx -> match idx with [ i; j ] -> tr_map l t ne i j | _ -> None) idxs) in
       let s0 = tr_stride l t ne (nat_of_int 0) and s1 = tr_stride l t ne (nat_of_int 1) in
+      let dom = all_repr t xs && repr t (product xs) in
       let ml =
         match offs, s0, s1 with
         | None, _, _ -> "ub"
         | Some offs, Ok a, Ok b ->
-            join ([ "ok" ] @ zl (extents_list t te) @ List.map pat_tok te.pat
-                  @ [ zs (tr_required l t ne); zs a; zs b; string_of_int (List.length offs) ] @ zl offs)
+            let tx = extents_list t te in
+            let buf = List.init (List.length offs + 1) (fun k -> zi (1000 + k)) in
+            let els = if not dom then [] else
+                List.map (fun o -> if is_neg o then "oob" else
+                                     match List.nth_opt buf (int_of_z o) with Some a -> zs a | None -> "oob") offs in
+            join ([ "ok" ] @ zl tx @ List.map pat_tok te.pat
+                  @ [ zs (tr_required l t ne); zs a; zs b; string_of_int (List.length offs) ] @ zl offs
+                  @ [ "md"; zs (mds_size t te); b2s (mds_empty t te) ] @ zl tx @ [ zs (List.hd tx) ]
+                  @ [ string_of_int (List.length els) ] @ els)
         | _ -> "contract" in
-      let dom = all_repr t xs && repr t (product xs) in
       let sl =
         if not dom then "na"
         else
@@ -268,7 +313,9 @@ let run_case op toks =
           let so = List.map (spec_off vl xs) idxs in
           join ([ "ok" ] @ zl xs @ List.map pat_tok p
                 @ [ zs (product xs); zs (spec_stride vl xs 0); zs (spec_stride vl xs 1);
-                    string_of_int (List.length so) ] @ zl so) in
+                    string_of_int (List.length so) ] @ zl so
+                @ [ "md"; zs (product xs); b2s (z_eq (product xs) Z0) ] @ zl xs @ [ zs (List.hd xs) ]
+                @ [ string_of_int (List.length so) ] @ List.map (fun o -> zs (Z.add (zi 1000) o)) so) in
       (ml, sl)
     end
   | "S" -> begin
@@ -280,6 +327,32 @@ let run_case op toks =
       let ks = next_zlist toks in
       let e = ext_from_pack t p v in
       let xs = extents_dyn p v in
+      if op = "subextp" then begin
+        let ls = next_zlist toks in
+        let sl = List.mapi (fun k kz ->
+            match ss.[k] with
+            | 'F' -> SlFull
+            | 'P' -> SlPair (cast t kz, cast t (List.nth ls k))
+            | _ -> SlIndex (cast t kz)) ks in
+        let ml = match sub_extents_p t e sl with
+          | None -> "ub"
+          | Some sub ->
+              join ([ "ok"; nat_s (rank sub); nat_s (rank_dynamic sub.pat) ] @ List.map pat_tok sub.pat
+                    @ zl (extents_list t sub)) in
+        (* precondition of [mdspan.sub.extents], on the values as written in the case line *)
+        let dom = all_repr t xs
+                  && List.for_all2 (fun (c, (kz, lz)) x ->
+                         match c with
+                         | 'F' -> true
+                         | 'P' -> (not (is_neg kz)) && z_le kz lz && z_le lz x
+                         | _ -> (not (is_neg kz)) && z_lt kz x)
+                       (List.mapi (fun k kz -> (ss.[k], (kz, List.nth ls k))) ks) xs in
+        let ssl = List.mapi (fun k kz ->
+            match ss.[k] with 'F' -> SlFull | 'P' -> SlPair (kz, List.nth ls k) | _ -> SlIndex kz) ks in
+        let sp = sub_pattern ssl p and sx = sub_shape ssl xs in
+        let spl = join ([ "ok"; string_of_int (List.length sp); nat_s (rank_dynamic sp) ] @ List.map pat_tok sp @ zl sx) in
+        (ml, if dom then spl else "na")
+      end else
       let sl = List.mapi (fun k kz -> if ss.[k] = 'F' then None else Some (cast t kz)) ks in
       let sub = sub_extents t e sl in
       let ml = join ([ "ok"; nat_s (rank sub); nat_s (rank_dynamic sub.pat) ] @ List.map pat_tok sub.pat
@@ -289,6 +362,30 @@ let run_case op toks =
       let sp = keep_full sl p and sx = keep_full sl xs in
       let spl = join ([ "ok"; string_of_int (List.length sp); nat_s (rank_dynamic sp) ] @ List.map pat_tok sp @ zl sx) in
       (ml, if dom then spl else "na")
+    end
+  | "P" -> begin
+      (* compile-time probe: layout_stride rank 1, extents<I, dyn>{x}, stride s, index i *)
+      let t = ity_of (next_str toks) in
+      let x = next_z toks in
+      let sv = next_z toks in
+      let i = next_z toks in
+      let e = ext_from_pack t [ None ] [ x ] in
+      let m = strided_ctor t e [ sv ] in
+      let ml = match strided_map t m [ i ] with Some o -> join [ "ok"; zs o ] | None -> "ub" in
+      let dom = repr t x && repr t sv && not (z_eq sv Z0) && z_lt i x && repr t (stride_required [ x ] [ sv ]) in
+      (ml, if dom then join [ "ok"; zs (dot [ i ] [ sv ]) ] else "na")
+    end
+  | "Q" -> begin
+      (* compile-time probe: layout_right rank 2, extents<I, dyn, dyn>{x0, x1}, index (i0, i1) *)
+      let t = ity_of (next_str toks) in
+      let x0 = next_z toks in
+      let x1 = next_z toks in
+      let i0 = next_z toks in
+      let i1 = next_z toks in
+      let e = ext_from_pack t [ None; None ] [ x0; x1 ] in
+      let ml = match lay_map LRight t e [ i0; i1 ] with Some o -> join [ "ok"; zs o ] | None -> "ub" in
+      let dom = repr t x0 && repr t x1 && z_lt i0 x0 && z_lt i1 x1 && repr t (product [ x0; x1 ]) in
+      (ml, if dom then join [ "ok"; zs (row_major [ x0; x1 ] [ i0; i1 ]) ] else "na")
     end
   | "sp_first_s" | "sp_last_s" -> begin
       let x = ext_opt (next_z toks) in
